@@ -90,8 +90,8 @@ def fam(run):
         "eval_counter": ev_c, "nontrivial_counter": nt_c, "rule": rule,
         "split": shards_by_group("cfg"),
         "count_traces": lambda evs: sum(1 for e in evs if e["e"] == "cfg"),
-        "assumptions": ["the predicate catalogue (suffix .example.com / always / never) is case-insensitive",
-                        "Access-Control-Request-Method is spelled in upper case",
+        "assumptions": ["the predicate catalogue (suffix .example.com / always / never) is case-insensitive; the case-sensitive predicate 'exactlc' is only configured next to a non-empty list (with an empty list the filter lower-cases the origin before asking: left open)",
+                        "a second Access-Control-Request-Headers field line: refusal is demanded for the first line, nothing that is not allowed may be granted",
                         "handlers and later filters add no Access-Control-* header themselves",
                         "routable methods per URL are those of the harness's fixed route table (/u1: GET; /u2: GET, PUT; /u3: none)"],
         "sample": lambda ev: ev if ev.get("e") == "creq" and ev["req"]["origin"] else None,
